@@ -10,7 +10,7 @@ META = {
         "technique": "runtime monitoring: real reconciliation sessions between two real stores driven message by message; final dumps compared with the reference-model join, message budget, follow-up session, mirrored counters",
         "design_ref": "DESIGN.md §5 C01, §2.2",
         "level_text": "Pairs of reachable replica states (built through the real insert paths) are reconciled with either side initiating, on memory/file stores and under the split-factor / max-set-size grid (hook H2). Both dumps must equal the executable specification's join of the two start dumps, within a logical message budget; the next session must carry no entry. " + _EXPL,
-        "level_note": "Trusts the harness's replica specification (self-checked on every case) and the full-scan dump. Bounds: <=24 entries per side, <=4 authors, keys <=4 bytes.",
+        "level_note": "Trusts the harness's replica specification (self-checked on every case) and the full-scan dump. Bounds: <=24 (quick) / 64 (thorough) entries per side, <=4 authors, keys <=4 bytes.",
     },
     "C02": {
         "technique": "runtime monitoring: reference-model comparison (sequential spec + closed form) after every step of seeded permuted histories on the real store",
